@@ -2,9 +2,11 @@
    Theorems only (proofs in Acme.C04.Proofs_Xxx). The side condition [op_ok] of [Reach] excludes the
    two open findings (D20 re-attach, D22 two receiving interfaces of one node); the *_refuted
    theorems exhibit exactly those cases on the faithful model. References (I8): Acme.C04.Refs (layer 3,
-   a product construction over the flat-registry state); signal <-> message / multiplexer links (I1, I2)
-   are not modelled (see inv_step_partial in C04.v). *)
+   a product construction over the flat-registry state); signal <-> message / multiplexer links (I1, I2):
+   Acme.C04.Reg / RegInv (layer 2, a product construction over layer 3; inv2_step in C04.v), with the
+   same side condition for signals ([op_ok2]) and its refutation below. *)
 From Acme.C04 Require Import Spec Proofs_Step Proofs_Cor Proofs_Witness Proofs_Refs.
+From Acme.C04 Require Import Proofs_RegInv Proofs_RegCor Proofs_RegWitness.
 
 Theorem links_symmetric : forall s, Reach s -> LinksSymmetric s.
 Proof. exact Proofs_Cor.links_symmetric_reach. Qed.
@@ -36,3 +38,26 @@ Print Assumptions inv3_step.
 Theorem references_exact : forall s, Reach3 s -> ReferencesExact s.
 Proof. exact Proofs_Refs.references_exact. Qed.
 Print Assumptions references_exact.
+
+(* layer 2: a signal reports a message exactly when it is reachable from the payload of that message
+   through multiplexer groups (and the registry of the message is that set); it reports a multiplexer
+   exactly when that multiplexer holds it *)
+Theorem signal_parent_links : forall s, Reach2 s -> SignalParentLinks s.
+Proof. exact Proofs_RegCor.signal_parent_links. Qed.
+Print Assumptions signal_parent_links.
+
+(* a signal sits in one payload or in one multiplexer, never both, and belongs to one message *)
+Theorem signal_exclusive : forall s, Reach2 s -> SignalExclusive s.
+Proof. exact Proofs_RegCor.signal_exclusive. Qed.
+Print Assumptions signal_exclusive.
+
+(* without the side condition of [op_ok2] (open finding D20 for signals) both fail *)
+Theorem signal_exclusive_without_side_condition_refuted :
+  exists ops m1 m2 x, m1 <> m2 /\ all_accepted2 ops = true /\ in_two_payloads (run2 ops) m1 m2 x = true /\ ~ Inv2 (run2 ops).
+Proof. exact Proofs_RegWitness.signal_exclusive_without_side_condition_refuted. Qed.
+Print Assumptions signal_exclusive_without_side_condition_refuted.
+
+Theorem multiplexed_exclusive_without_side_condition_refuted :
+  exists ops u1 u2 x, u1 <> u2 /\ all_accepted2 ops = true /\ in_two_muxes (run2 ops) u1 u2 x = true /\ ~ Inv2 (run2 ops).
+Proof. exact Proofs_RegWitness.multiplexed_exclusive_without_side_condition_refuted. Qed.
+Print Assumptions multiplexed_exclusive_without_side_condition_refuted.
